@@ -474,11 +474,11 @@ def path_sites(program):
 
 
 def check_sanitize(ctx, scope=('output-root', 'log-root', 'report-root',
-                               'parameter root')):
+                               'parameter root'), floor=8):
     program = ctx.program
     sites = path_sites(program)
     sites = [s for s in sites if s[2] in scope]
-    ctx.floor('SANITIZE', len(sites), 8, 'filesystem paths built from a '
+    ctx.floor('SANITIZE', len(sites), floor, 'filesystem paths built from a '
               'configured root and a task name')
     for func, node, rootkey, named in sites:
         program.consulted.add(func.module.relpath)
